@@ -4,6 +4,7 @@
 //! note: confirmation thresholds of both OnchainEventEntry types (channelmonitor.rs, onchaintx.rs)
 //! trusted: assume_specification for core::cmp::max / core::cmp::min (their std definitions); foreign payload types (Txid, BlockHash, Transaction, HTLCSource, PaymentHash, PaymentPreimage, Amount, OutPoint, TxOut) are opaque structs; SpendableOutputDescriptor / DelayedPaymentOutputDescriptor are skeletons keeping the fields the code reads
 //! trusted: u11b: ChannelMonitorImpl is a self skeleton (R5) with the fields blocks_disconnected touches; OnchainTxHandler::blocks_disconnected/transaction_unconfirmed, cancel_prev_commitment_claims, closure_conf_target, queue_latest_holder_commitment_txn_for_broadcast are external_body with the frame "does not touch best_block / onchain_events_awaiting_threshold_conf" assumed (they only read best_block); Txid equality is spec equality; R6e for Vec::retain
+//! trusted: best_block_updated: BlockLocator::{new, update_for_new_tip} external_body (set hash and height); Header::block_hash external_body; block_confirmed external_body with the frame `best_block untouched` assumed; BlockHash is an opaque identity (u64 stand-in)
 //! assume: 1 <= height <= 2^31-1 for entries (height == 0 with csv == 0 would underflow `height + csv - 1`; LDK never records height 0)
 use vstd::prelude::*;
 verus! {
@@ -15,12 +16,23 @@ pub assume_specification<T: core::cmp::Ord>[core::cmp::max::<T>](a: T, b: T) -> 
     ensures T::obeys_cmp_spec() ==> r == (if b.cmp_spec(&a) == core::cmp::Ordering::Less { a } else { b });
 //@const lightning/src/chain/channelmonitor.rs ANTI_REORG_DELAY
 
-pub struct Txid {} pub struct BlockHash {} pub struct Transaction {} pub struct HTLCSource {} pub struct PaymentHash {}
+pub struct Txid {} #[derive(Clone, Copy)] pub struct BlockHash(pub u64); pub struct Transaction {} pub struct HTLCSource {} pub struct PaymentHash {}
 pub struct PaymentPreimage {} pub struct Amount {} pub struct OutPoint {} pub struct TxOut {}
 pub struct DelayedPaymentOutputDescriptor { pub to_self_delay: u16 }
 pub struct StaticPaymentOutputDescriptor {}
 pub enum SpendableOutputDescriptor { StaticOutput { outpoint: OutPoint, output: TxOut }, DelayedPaymentOutput(DelayedPaymentOutputDescriptor), StaticPaymentOutput(StaticPaymentOutputDescriptor) }
-pub struct BlockLocator { pub height: u32 }
+impl PartialEqSpecImpl for BlockHash { open spec fn obeys_eq_spec() -> bool { true } open spec fn eq_spec(&self, other: &BlockHash) -> bool { self.0 == other.0 } }
+impl PartialEq for BlockHash { fn eq(&self, o: &BlockHash) -> (r: bool) { self.0 == o.0 } }
+pub struct BlockLocator { pub block_hash: BlockHash, pub height: u32 }
+impl BlockLocator {
+    // chain/mod.rs: both set the tip's hash and height (the ancestor-hash history they also maintain is not modelled)
+    #[verifier::external_body] pub fn new(block_hash: BlockHash, height: u32) -> (r: BlockLocator) ensures r.block_hash == block_hash, r.height == height { unimplemented!() }
+    #[verifier::external_body] pub fn update_for_new_tip(&mut self, new_tip_hash: BlockHash, new_tip_height: u32)
+        ensures final(self).block_hash == new_tip_hash, final(self).height == new_tip_height { unimplemented!() }
+}
+pub struct Header { pub h: BlockHash }
+impl Header { #[verifier::external_body] pub fn block_hash(&self) -> (r: BlockHash) ensures r == self.h { unimplemented!() } }
+pub struct TransactionOutputs {}
 
 mod monitor {
 use super::*;
@@ -154,6 +166,66 @@ impl ChannelMonitorImpl {
     pub fn queue_latest_holder_commitment_txn_for_broadcast<B: BroadcasterInterface, F: FeeEstimator, L: Logger>(&mut self, broadcaster: &B, fee_estimator: &LowerBoundedFeeEstimator<F>, logger: &WithContext<L>, require_funding_seen: bool)
         ensures final(self).best_block == old(self).best_block, final(self).onchain_events_awaiting_threshold_conf == old(self).onchain_events_awaiting_threshold_conf
     { unimplemented!() }
+
+    // block_confirmed (matures events, generates claims) only reads best_block (checked by reading it): frame assumed
+    #[verifier::external_body]
+    pub fn block_confirmed<B: BroadcasterInterface, F: FeeEstimator, L: Logger>(&mut self, conf_height: u32, conf_hash: BlockHash, txn_matched: Vec<Transaction>,
+        watch_outputs: Vec<TransactionOutputs>, claimable_outpoints: Vec<OutPoint>, broadcaster: &B, fee_estimator: &LowerBoundedFeeEstimator<F>, logger: &WithContext<L>) -> (r: Vec<TransactionOutputs>)
+        ensures final(self).best_block == old(self).best_block
+    { unimplemented!() }
+
+//@extract lightning/src/chain/channelmonitor.rs :: impl ChannelMonitorImpl :: fn best_block_updated
+//@ret r
+//@ensures P C11 a-new-best-block-at-or-below-the-known-height-with-another-hash-is-a-reorg-every-awaiting-event-above-it-is-retracted
+    height > old(self).best_block.height ==> final(self).best_block.height == height && final(self).best_block.block_hash == header.h,
+    height <= old(self).best_block.height && header.h != old(self).best_block.block_hash ==>
+        final(self).best_block.height == height && final(self).best_block.block_hash == header.h
+        && final(self).onchain_events_awaiting_threshold_conf@ == kept_le(old(self).onchain_events_awaiting_threshold_conf@, height as int)
+        && forall|k: int| 0 <= k < final(self).onchain_events_awaiting_threshold_conf@.len() ==> (#[trigger] final(self).onchain_events_awaiting_threshold_conf@[k]).height <= height,
+    height <= old(self).best_block.height && header.h == old(self).best_block.block_hash ==>
+        final(self).best_block == old(self).best_block && final(self).onchain_events_awaiting_threshold_conf@ == old(self).onchain_events_awaiting_threshold_conf@,
+//@rw R6e
+    self.onchain_events_awaiting_threshold_conf.retain(|ref $h:ident| $body);
+//@with
+    let ghost orig = self.onchain_events_awaiting_threshold_conf@;
+    proof { assert(orig.take(0) =~= Seq::<OnchainEventEntry>::empty()); assert(self.onchain_events_awaiting_threshold_conf@.take(0) =~= Seq::<OnchainEventEntry>::empty()); }
+    {
+        let mut __i: usize = 0;
+        while __i < self.onchain_events_awaiting_threshold_conf.len()
+            invariant
+                __i <= self.onchain_events_awaiting_threshold_conf@.len() <= orig.len(), self.best_block.height == height, self.best_block.block_hash == block_hash,
+                self.alternative_funding_confirmed == old(self).alternative_funding_confirmed,
+                self.holder_tx_signed == old(self).holder_tx_signed, self.funding_spend_seen == old(self).funding_spend_seen,
+                self.onchain_events_awaiting_threshold_conf@.skip(__i as int) == orig.skip(orig.len() - (self.onchain_events_awaiting_threshold_conf@.len() - __i)),
+                self.onchain_events_awaiting_threshold_conf@.take(__i as int) == kept_le(orig.take(orig.len() - (self.onchain_events_awaiting_threshold_conf@.len() - __i)), height as int),
+            decreases self.onchain_events_awaiting_threshold_conf@.len() - __i
+        {
+            let ghost k = orig.len() - (self.onchain_events_awaiting_threshold_conf@.len() - __i);
+            let ghost cur = self.onchain_events_awaiting_threshold_conf@;
+            proof { assert(cur[__i as int] == cur.skip(__i as int)[0]); assert(orig[k] == orig.skip(k)[0]); lemma_kept_step(orig, k, height as int); }
+            let __keep = { let $h = &self.onchain_events_awaiting_threshold_conf[__i]; $body };
+            proof { assert(cur.skip(__i as int).skip(1) =~= cur.skip(__i as int + 1)); assert(orig.skip(k).skip(1) =~= orig.skip(k + 1)); }
+            if __keep { __i = __i + 1;
+                proof { assert(self.onchain_events_awaiting_threshold_conf@.take(__i as int) =~= cur.take(__i as int - 1).push(cur[__i as int - 1])); }
+            } else { self.onchain_events_awaiting_threshold_conf.remove(__i);
+                proof { assert(self.onchain_events_awaiting_threshold_conf@ =~= cur.remove(__i as int)); assert(self.onchain_events_awaiting_threshold_conf@.skip(__i as int) =~= cur.skip(__i as int + 1)); assert(self.onchain_events_awaiting_threshold_conf@.take(__i as int) =~= cur.take(__i as int)); }
+            }
+        }
+    }
+    proof {
+        assert(orig.take(orig.len() as int) =~= orig);
+        assert(self.onchain_events_awaiting_threshold_conf@.take(self.onchain_events_awaiting_threshold_conf@.len() as int) =~= self.onchain_events_awaiting_threshold_conf@);
+        lemma_kept_all_le(orig, height as int);
+    }
+//@mutant reorg_to_an_equal_height_block_ignored
+    if height > self.best_block.height {
+//@with
+    if height >= self.best_block.height {
+//@mutant events_above_the_new_tip_kept
+    entry.height <= height
+//@with
+    entry.height <= self.best_block.height + 6
+//@end
 
 //@extract lightning/src/chain/channelmonitor.rs :: impl ChannelMonitorImpl :: fn blocks_disconnected
 //@requires
